@@ -27,6 +27,8 @@ pub fn run_host_process<'arena>(
     configure_stdio(&mut command, spec);
 
     let mut child = command.spawn().map_err(ProcessError::SpawnFailed)?;
+    #[cfg(feature = "verif")]
+    crate::verif::proc_event("spawned", 0, u64::from(child.id()));
     let overflow = Arc::new(AtomicU8::new(0));
 
     let writer = spawn_stdin_writer(&mut child, spec.stdin);
@@ -148,12 +150,22 @@ fn read_captured_stream<R: Read>(
     let max = cap as usize;
 
     loop {
+        #[cfg(feature = "verif")]
+        crate::verif::proc_delay("reader_before_read");
         let n = reader.read(&mut chunk)?;
         if n == 0 {
+            #[cfg(feature = "verif")]
+            crate::verif::proc_event("reader_eof", overflow_code, buf.len() as u64);
             break;
         }
+        #[cfg(feature = "verif")]
+        crate::verif::proc_event("reader_read", overflow_code, n as u64);
         if buf.len().saturating_add(n) > max {
+            #[cfg(feature = "verif")]
+            crate::verif::proc_delay("reader_before_overflow");
             let _ = overflow.compare_exchange(0, overflow_code, Ordering::SeqCst, Ordering::SeqCst);
+            #[cfg(feature = "verif")]
+            crate::verif::proc_event("reader_overflow", overflow_code, (buf.len() + n) as u64);
             break;
         }
         buf.extend_from_slice(&chunk[..n]);
@@ -173,24 +185,38 @@ fn wait_for_child(
     let timeout = Duration::from_millis(u64::from(timeout_ms));
 
     loop {
+        #[cfg(feature = "verif")]
+        crate::verif::proc_delay("wait_before_overflow_check");
         let overflow_code = overflow.load(Ordering::Acquire);
         if overflow_code != 0 {
+            #[cfg(feature = "verif")]
+            crate::verif::proc_event("wait_saw_overflow", overflow_code, 0);
             terminate_child(child);
             return Err(ProcessError::OutputLimitExceeded(stream_from_code(overflow_code)));
         }
 
+        #[cfg(feature = "verif")]
+        crate::verif::proc_delay("wait_before_try_wait");
         if let Some(status) = child.try_wait().map_err(ProcessError::SpawnFailed)? {
+            #[cfg(feature = "verif")]
+            crate::verif::proc_event("wait_saw_exit", 0, 0);
             return Ok(status);
         }
         if start.elapsed() >= timeout {
+            #[cfg(feature = "verif")]
+            crate::verif::proc_event("wait_timeout", 0, 0);
             terminate_child(child);
             return Err(ProcessError::Timeout);
         }
+        #[cfg(feature = "verif")]
+        crate::verif::proc_event("wait_poll", 0, 0);
         thread::sleep(sleep_for);
     }
 }
 
 fn terminate_child(child: &mut Child) {
+    #[cfg(feature = "verif")]
+    crate::verif::proc_event("kill", 0, u64::from(child.id()));
     let _ = child.kill();
     let _ = child.wait();
 }
@@ -212,10 +238,14 @@ fn join_capture<'arena>(
         return Ok(None);
     };
 
+    #[cfg(feature = "verif")]
+    crate::verif::proc_delay("before_join_capture");
     let bytes = handle
         .join()
         .expect("capture reader thread should not panic")
         .map_err(ProcessError::SpawnFailed)?;
+    #[cfg(feature = "verif")]
+    crate::verif::proc_event("join_recheck", stream_code(stream), bytes.len() as u64);
 
     if overflow.load(Ordering::Acquire) == stream_code(stream) {
         return Err(ProcessError::OutputLimitExceeded(stream));
